@@ -15,7 +15,11 @@ XS = 'http://www.w3.org/2001/XMLSchema'
 
 
 def style(rng, words: List[str], kind: str) -> str:
-    s = rng.choice(['pascal', 'camel', 'snake'])
+    s = rng.choice(['pascal', 'camel', 'snake', 'pascal', 'camel', 'snake', 'acronym', 'digit'])
+    if s == 'acronym':          # URLType / IDList: an all-capitals run in front
+        return words[0][:3].upper() + ''.join(w.capitalize() for w in words[1:])
+    if s == 'digit':            # Address2line / v2Code
+        return words[0].capitalize() + str(rng.randint(1, 9)) + ''.join(words[1:])
     if s == 'pascal':
         return ''.join(w.capitalize() for w in words)
     if s == 'camel':
